@@ -122,9 +122,20 @@ class C05(Prop):
     theorems = ["EaselModel.Props.C05." + t for t in (
         "open_wf", "refill_wf", "refill_guarantee", "getLine_refines", "fetchLine_refines", "read_refines",
         "getToken_refines", "fetchToken_refines", "lines_partition", "getLine_keeps_anchor", "countline_pagesize_independent",
+        "history_spec", "history_mode_independent", "history_no_fault", "reread_under_anchor", "step_simulates",
         "stable_ptr_valid_partial", "stable_ptr_valid_fails_at")]
-    claimed = False
-    diverge_is_violation = False
+    claimed = True
+    level_text = ("Theorems (no bound on input, page size >= 1, or history length): every opener yields a well-formed window; buffer_refill preserves it and restores the page guarantee; "
+                  "GetLine/FetchLine/FetchLineAsStr, GetToken/FetchToken/FetchTokenAsStr, Read each refine the abstract 'bytes + cursor' specification; "
+                  "history_spec: for all 6 modes and every history of the 14 operations within the API contract, the (status, bytes, offset) sequence of the model equals the specification's; "
+                  "history_mode_independent; history_no_fault (no out-of-bounds access, only OK/EOF/EOL); lines + terminators partition the input; re-read under an anchor. "
+                  "The hand-written model is tied to the working tree by an exact differential run (6 modes x 11 page sizes, histories <= 200 ops, ASan+UBSan) and the implementation is "
+                  "monitored against the specification per operation; any difference is a concrete failing (input, mode, page size, history).")
+    level_note = ("Partial on one clause: 'pointers handed out under a stable anchor stay valid' is false of the code (buffer_refill reallocates; known finding C05:stable-anchor:realloc-in-refill, "
+                  "proved: stable_ptr_valid_partial + stable_ptr_valid_fails_at). Trusted: Lean kernel + propext/Classical.choice/Quot.sound; model fidelity is checked (not proved) by the differential run; "
+                  "fread/popen/mmap deliver the bytes; allocation never fails; esl_buffer_Open/Close not modelled. Contract assumed of callers: anchors at/before the cursor, "
+                  "SetOffset to a byte of the input ahead of the cursor or at/after the active anchor, Set within one guaranteed page.")
+    diverge_is_violation = True    # on valid histories the model is proved equal to the specification (history_spec)
     quick_budget_s = 60
     technique = ("Lean 4 proof (window invariant + refinement of the hand-written model of esl_buffer.c to the abstract 'bytes + cursor' specification) "
                  "+ exact differential correspondence of the executable model with the ASan/UBSan-built esl_buffer.c in six opening modes x eleven page sizes, "
@@ -267,7 +278,24 @@ class C05(Prop):
     # ------------------------------------------------------------------ comparison / monitors
     def canonical(self, line):
         if line.startswith("fault"): return "fault"
-        return " ".join(w for w in line.split() if not w.startswith(("moved=", "stale=")))
+        return " ".join(w for w in line.split() if not w.startswith(("moved=", "stale=", "spec=", "valid=")))
+
+    def compare(self, ctx, case, impl_out, model_out):
+        """model = implementation (exact), and — on the driver's side channel — the Lean specification `specStep` prescribes
+        what the python oracle `Spec` prescribes, and every generated op is inside the Lean contract `Valid ps`"""
+        d = Prop.compare(self, ctx, case, impl_out, model_out)
+        if d is not None or case.get("nomonitor"): return d
+        ops = case["ops"]
+        kv = dict(x.split("=", 1) for x in ops[0].split()[1:] if "=" in x)
+        sp = Spec(bytes.fromhex(kv["hex"]) if kv["hex"] != "-" else b"")
+        for i, (op, l) in enumerate(zip(ops[1:], model_out[1:]), 1):
+            exp = sp.apply(op)
+            f = dict(x.split("=", 1) for x in l.split() if "=" in x)
+            if exp is None or "spec" not in f: return None
+            want = "%s,%s,%d" % (exp["st"], "-" if exp.get("get") else hx(exp["bytes"]), exp["off"])
+            if f["spec"] != want: return (i, "python-spec " + want, "lean-spec " + f["spec"])
+            if f.get("valid") != "1": return (i, "generated op inside the contract", "lean: Valid fails for " + op)
+        return None
 
     def nontrivial(self, case, out):
         return len(out) >= 3 and sum(1 for l in out if l.startswith("ok") and " n=0 " not in l) >= 1
